@@ -161,7 +161,7 @@ class Shard:
         self.viol_classes[cls] = self.viol_classes.get(cls, 0) + 1
         if self.viol_classes[cls] <= 2 and len(self.violations) < 4 * MAX_VIOL_PER_SHARD:
             self.violations.append({
-                "space": self.space, "rank": int(rank), "key": str(key), "sig": sig,
+                "space": self.space, "rank": int(rank), "shard_lo": int(self.lo), "key": str(key), "sig": sig,
                 "message": str(message)[:2000],
                 "case": jsonable(case), "observed": jsonable(observed), "expected": jsonable(expected),
             })
